@@ -103,6 +103,14 @@ def exact_sqdist(p, q):
 
 def run(R, tier, seed, driver_ok):
     quiet()
+    _shared = {}
+
+    def shared(y_):
+        k_ = (y_.tobytes(), str(y_.dtype))
+        if k_ not in _shared:
+            _shared.clear()                      # (only the current label vector is kept)
+            _shared[k_] = Constraints(y_)
+        return _shared[k_]
     rng = np.random.RandomState(seed + 707)
     nvec = 120 if tier == 'quick' else 1200
     R.rule = ('label vectors (balanced / unbalanced / singleton classes / non-contiguous values, unknown −1 labels anywhere) × '
@@ -123,7 +131,9 @@ def run(R, tier, seed, driver_ok):
             try:
                 with record_constraints() as rec, warnings.catch_warnings(record=True) as wl:
                     warnings.simplefilter('always')
-                    a, b, c, d = Constraints(y).positive_negative_pairs(n, same_length=same_length, random_state=sd)
+                    # (one helper object per label vector serves every call of this iteration: constraints must not depend on what
+                    #  the object was asked before; the repetition below uses a fresh object)
+                    a, b, c, d = shared(y).positive_negative_pairs(n, same_length=same_length, random_state=sd)
             except Exception as e:
                 # pairs of both kinds exist for these labels: fewer (even none) may be found, with a warning, but the
                 # call must return
@@ -169,7 +179,7 @@ def run(R, tier, seed, driver_ok):
                    branch=f'chunks:{"possible" if nch <= mx else "impossible"}')
             with record_constraints() as rec:
                 try:
-                    ch = Constraints(y).chunks(n_chunks=nch, chunk_size=size, random_state=sd)
+                    ch = shared(y).chunks(n_chunks=nch, chunk_size=size, random_state=sd)
                     outcome = 'ok'
                 except ValueError:
                     ch, outcome = None, 'ValueError'
@@ -183,8 +193,13 @@ def run(R, tier, seed, driver_ok):
                     R.violation(f'chunks/possible-{outcome}', f'{nch} chunks of {size} possible ({mx}) but {outcome} raised', case)
                 else:
                     ch2 = Constraints(y).chunks(n_chunks=nch, chunk_size=size, random_state=sd)
-                    if not np.array_equal(ch, ch2):
-                        R.violation('chunks/not-reproducible', 'same integer seed gave different chunks', case)
+                    try:
+                        ch3 = shared(y).chunks(n_chunks=nch, chunk_size=size, random_state=sd)      # the same object, asked again
+                    except Exception as e:
+                        ch3 = None
+                        R.violation(f'chunks/second-call-raises-{type(e).__name__}', f'a second identical call on the same Constraints object raised {type(e).__name__}: {str(e)[:100]}', case)
+                    if not np.array_equal(ch, ch2) or (ch3 is not None and not np.array_equal(ch, ch3)):
+                        R.violation('chunks/not-reproducible', 'same integer seed gave different chunks (fresh object / same object asked again)', case)
                     if ch.shape != y.shape:
                         R.violation('chunks/shape', 'chunk array has the wrong shape', case)
                     else:
@@ -207,7 +222,7 @@ def run(R, tier, seed, driver_ok):
         # ---------- k-NN triplets
         if len(known) > 0:
             vals, cnt = np.unique(known, return_counts=True)
-            if len(vals) >= 2 and cnt.min() >= 2:
+            if len(vals) >= 1:        # (also classes with one member and a single known class: no triplet for them)
                 dd = int(rng.randint(1, 4))
                 X = np.round(rng.randn(len(y), dd) * 2) / (2.0 if rng.rand() < 0.5 else 1.0)   # many exact ties / duplicates
                 if rng.rand() < 0.5:
@@ -219,11 +234,16 @@ def run(R, tier, seed, driver_ok):
                 with record_constraints() as rec, warnings.catch_warnings(record=True) as wl:
                     warnings.simplefilter('always')
                     try:
-                        T = Constraints(y).generate_knntriplets(X, kg, ki)
+                        T = shared(y).generate_knntriplets(X, kg, ki)
                     except Exception as e:
                         R.violation(f'knn/raises-{type(e).__name__}', f'generate_knntriplets raised {type(e).__name__}: {e}', case)
                         continue
                 T = np.asarray(T)
+                with warnings.catch_warnings():
+                    warnings.simplefilter('ignore')
+                    T_fresh = np.asarray(Constraints(y).generate_knntriplets(X, kg, ki))
+                if not np.array_equal(T, T_fresh):
+                    R.violation('knn/not-reproducible', 'a Constraints object used before gives other triplets than a fresh one', case)
                 nk = len(known)
                 expected = 0
                 ok = True
@@ -244,7 +264,7 @@ def run(R, tier, seed, driver_ok):
                     for a_ in members:
                         rows = T[T[:, 0] == a_]
                         bs = sorted(set(rows[:, 1].tolist())); cs_ = sorted(set(rows[:, 2].tolist()))
-                        if len(rows) != kgc * kic or len(bs) != kgc or len(cs_) != kic:
+                        if len(rows) != kgc * kic or (kgc * kic > 0 and (len(bs) != kgc or len(cs_) != kic)):
                             R.violation('knn/combination-count', f'anchor {a_}: {len(rows)} triplets, {len(bs)} genuine, {len(cs_)} impostors (expected {kgc}×{kic})', case); ok = False; break
                         if any(y[b_] != lbl or b_ == a_ for b_ in bs) or any(y[c2] == lbl or y[c2] < 0 for c2 in cs_):
                             R.violation('knn/wrong-class', f'anchor {a_} (class {lbl}): genuine {bs} / impostors {cs_} have wrong labels', case); ok = False; break
@@ -264,9 +284,11 @@ def run(R, tier, seed, driver_ok):
                 # model replay per class from the recorded neighbour lists (mapped to the caller's frame by the harness)
                 kidx = np.nonzero(y >= 0)[0]
                 calls = rec['knn']
-                if len(calls) == 2 * len(vals):
+                # (a class without genuine or without impostor neighbours gives no triplet and needs no neighbour search)
+                active = [(lbl, c_) for lbl, c_ in zip(vals, cnt) if min(kg, c_ - 1) * min(ki, nk - c_) > 0]
+                if len(calls) == 2 * len(active):
                     off = 0
-                    for ci, (lbl, c_) in enumerate(zip(vals, cnt)):
+                    for ci, (lbl, c_) in enumerate(active):
                         members_k = np.nonzero(known == lbl)[0]; others_k = np.nonzero(known != lbl)[0]
                         g = kidx[members_k[calls[2 * ci]['idx']]]; im = kidx[others_k[calls[2 * ci + 1]['idx']]]
                         mem = kidx[members_k]
@@ -279,7 +301,7 @@ def run(R, tier, seed, driver_ok):
                         lines.append(f'knn_clip {kg} {ki} {nk} {c_}')
                         meta.append(('clip', (kgc, kic), case))
                 else:
-                    R.broken('correspondence:C07:knn-call-pattern', f'{len(calls)} neighbour searches for {len(vals)} classes', case)
+                    R.broken('correspondence:C07:knn-call-pattern', f'{len(calls)} neighbour searches for {len(active)} classes with triplets', case)
     if driver_ok and lines:
         outs = lean_run(lines)
         for o, (kind, impl, case) in zip(outs, meta):
